@@ -40,7 +40,6 @@ from .. import fx_priors as fxp
 UN = 16
 ZS = 100
 ZTS = 100
-ZT_LEN = 1074                # 2^-1074 is the smallest positive double
 EPS = 2.0 ** -52
 SQ2 = math.sqrt(2.0)
 REL_U = 1e-12
@@ -51,17 +50,46 @@ ND = NormalDist()
 def z_file():
     """The uninterpreted table of the spec, filled from the stdlib (not from scipy)."""
     z = [int(round(ND.inv_cdf(k / UN) * ZS)) for k in range(1, UN)]
-    # ladder table ZT[k] ~ ZTS * Phi^-1(2^-k): two independent evaluations (AS241 of the stdlib on p itself,
-    # inversion of math.erfc) must agree before anything is concluded from it
-    zq = [ND.inv_cdf(2.0 ** -k) for k in range(1, ZT_LEN + 1)]
-    for k in (1, 2, 4, 5, 12, 30, 53, 54, 100, 332, 997, 1022):
-        if abs(erfc_quantile(k) - zq[k - 1]) > 1e-9 * max(1.0, abs(zq[k - 1])):
-            raise Machinery('normal quantile at 2^-%d: stdlib %r vs erfc inversion %r' % (k, zq[k - 1], erfc_quantile(k)))
-    zt = [int(round(x * ZTS)) for x in zq]
     fd, path = tempfile.mkstemp(prefix='verifz_', suffix='.ndjson')
     with os.fdopen(fd, 'w') as f:
-        f.write(json.dumps({'z': z, 'zt': zt}) + '\n')
+        f.write(json.dumps({'z': z}) + '\n')
     return path
+
+
+def verify_ladder_table(cfgs):
+    """The ladder tables of the spec (ZTCode / ZDCode in the cfg: k * 10000 - Z.[k], ZT[k] ~ ZTS * Phi^-1(2^-k),
+    ZD[k] ~ ZTS * Phi^-1(10^-k)) are uninterpreted constants there; every entry is re-computed here by two independent
+    evaluations (AS241 of the stdlib on p itself, inversion of math.erfc) before anything is concluded from it.
+    The spec orders 2^-k against 10^-j with 3.3219 < log2(10) < 3.3220: checked with integers."""
+    import re
+    from ..core import SPEC
+    if not 2 ** 33219 < 10 ** 10000 < 2 ** 33220:
+        raise Machinery('log2(10) is not in (3.3219, 3.3220)')
+    for cfg in cfgs:
+        text = open(os.path.join(SPEC, cfg)).read()
+
+        def ints(name):
+            m = re.search(name + r' = \{([0-9,\s]+)\}', text)
+            if not m:
+                raise Machinery('%s: no %s' % (cfg, name))
+            return [int(x) for x in m.group(1).split(',')]
+        zs = re.search(r'ZTS = (\d+)', text)
+        if not zs or int(zs.group(1)) != ZTS:
+            raise Machinery('%s: ZTS != %d' % (cfg, ZTS))
+        for base, code, pts in ((2, ints('ZTCode'), ints('TK') + [1, 2, 3, 4]), (10, ints('ZDCode'), ints('TD'))):
+            table = {c // 10000: -(c % 10000) for c in code}
+            for k in pts:
+                if k not in table or float(base) ** -k <= 0.0:
+                    raise Machinery('%s: ladder point %d^-%d has no table entry / is no positive double' % (cfg, base, k))
+            for k, zt in table.items():
+                u = float(base) ** -k
+                q = ND.inv_cdf(u)
+                if u >= 2.0 ** -1022:
+                    e = erfc_quantile(-math.log(u))
+                    if abs(e - q) > 1e-9 * max(1.0, abs(q)):
+                        raise Machinery('normal quantile at %d^-%d: stdlib %r vs erfc inversion %r' % (base, k, q, e))
+                if abs(zt - q * ZTS) > 0.5 + 1e-6:
+                    raise Machinery('%s: table[%d^-%d] = %d but %d * Phi^-1 = %r' % (cfg, base, k, zt, ZTS, q * ZTS))
 
 
 def lower_mass(z):
@@ -69,11 +97,9 @@ def lower_mass(z):
     return 0.5 * math.erfc(-z / SQ2)
 
 
-def erfc_quantile(k):
-    """z with Phi(z) = 2^-k by bisection on math.erfc (k <= 1022: the mass is a normal double)."""
-    if k == 1:
-        return 0.0
-    target = -k * math.log(2.0)
+def erfc_quantile(neglog):
+    """z <= 0 with ln Phi(z) = -neglog by bisection on math.erfc (the mass must be a normal double)."""
+    target = -neglog
     lo, hi = -37.6, 0.0          # Phi(-37.6) ~ 1e-309 is still a positive double
     for _ in range(200):
         mid = 0.5 * (lo + hi)
@@ -259,22 +285,33 @@ def check_vector(ctx, v, rng):
 
 # ------------------------------------------------------------------ tail ladder (binding A)
 def ladder_u(pt):
-    """The double that IS the ladder point (every point of the spec's ladder is exactly representable)."""
-    k = int(pt['k'])
-    exact = Fraction(1, 2 ** k) if pt['side'] == 'lo' else 1 - Fraction(1, 2 ** k)
-    u = math.ldexp(1.0, -k) if pt['side'] == 'lo' else 1.0 - math.ldexp(1.0, -k)
-    if Fraction(u) != exact or not 0.0 < u < 1.0:
-        raise Machinery('ladder point %r is not a double in (0,1)' % (pt,))
-    return u, exact
+    """The double that is the ladder point and its exact value: binary points are doubles themselves, decimal
+    points are the nearest double (as written: 1e-12, 1 - 1e-12)."""
+    k, base = int(pt['k']), int(pt['base'])
+    if base == 2:
+        exact = Fraction(1, 2 ** k) if pt['side'] == 'lo' else 1 - Fraction(1, 2 ** k)
+        u = math.ldexp(1.0, -k) if pt['side'] == 'lo' else 1.0 - math.ldexp(1.0, -k)
+        if Fraction(u) != exact:
+            raise Machinery('ladder point %r is not a double' % (pt,))
+    else:
+        u = float('1e-%d' % k) if pt['side'] == 'lo' else 1.0 - float('1e-%d' % k)
+        comp = Fraction(u) if pt['side'] == 'lo' else 1 - Fraction(u)
+        if abs(comp * 10 ** k - 1) > Fraction(2, 10 ** 4):        # the double is the point to 2e-4 of min(u, 1-u)
+            raise Machinery('ladder point %r is not resolved by doubles' % (pt,))
+    if not 0.0 < u < 1.0:
+        raise Machinery('ladder point %r is not inside (0,1)' % (pt,))
+    return u, Fraction(u)
 
 
 def pt_name(pt):
-    return ('2^-%d' if pt['side'] == 'lo' else '1-2^-%d') % int(pt['k'])
+    return ('%d^-%d' if pt['side'] == 'lo' else '1-%d^-%d') % (int(pt['base']), int(pt['k']))
 
 
 def tail_region(pt):
-    k = int(pt['k'])
-    return '%s:%s' % (pt['side'], 'k<=30' if k <= 30 else 'k<=53' if k <= 53 else 'k<=1022' if k <= 1022 else 'subnormal')
+    u, _ = ladder_u(pt)
+    t = min(u, 1.0 - u)
+    return '%s:%s:%s' % (pt['side'], 'dyadic' if int(pt['base']) == 2 else 'decimal',
+                         'min(u,1-u)>=1e-9' if t >= 1e-9 else '>=1e-16' if t >= 1e-16 else '>=1e-300' if t >= 1e-300 else '<1e-300')
 
 
 def check_tail(ctx, v, obj, cls, a, b, uni):
@@ -291,6 +328,7 @@ def check_tail(ctx, v, obj, cls, a, b, uni):
             seq.append((1.0 - 1.0 / UN, float(obj.sample(1.0 - 1.0 / UN))))
         u, uq = ladder_u(pt)
         k = int(pt['k'])
+        tmass = u if pt['side'] == 'lo' else 1.0 - u          # min(u, 1-u), exact in doubles
         region = cls + ':' + tail_region(pt)
         pvec = dict(vec, tail=pt)
         try:
@@ -299,7 +337,8 @@ def check_tail(ctx, v, obj, cls, a, b, uni):
             ctx.verdict('tail_finite', False, cls=region, vector=pvec, detail='sample(%s) raised %r' % (pt_name(pt), ex))
             continue
         seq.append((u, got))
-        by_pt[(pt['side'], k)] = got
+        if int(pt['base']) == 2:
+            by_pt[(pt['side'], k)] = got
         if not math.isfinite(got):
             ctx.verdict('tail_finite', False, cls=region, vector=pvec,
                         detail='sample(%s) = %r for 0 < u < 1 (%s(%r, %r))' % (pt_name(pt), got, v['p']['kind'], a, b))
@@ -316,12 +355,14 @@ def check_tail(ctx, v, obj, cls, a, b, uni):
             z = (got - a) / b
             ok = abs(got - table) <= b * 0.5 / ZTS + 1e-9 * max(abs(a), b)
             detail = 'sample(%s) = %r, specification table %r +- %r' % (pt_name(pt), got, table, b * 0.5 / ZTS)
-            if ok and k <= 1022:
+            if int(pt['base']) == 10 and pt['side'] == 'hi':       # the double's 1-u differs from 10^-k by up to 2e-4 relative
+                ok = abs(got - table) <= b * (0.5 / ZTS + 1e-4) + 1e-9 * max(abs(a), b)
+            if ok and tmass >= 2.0 ** -1022:
                 # inverse-CDF identity relative to min(u, 1-u): the tail mass at the sample is 2^-k
                 mass = lower_mass(z) if pt['side'] == 'lo' else lower_mass(-z)
                 dz = 4 * EPS * max(abs(a), abs(got), b * abs(z)) / b          # rounding of x = mean + sd z
                 tol = REL_G + 2 * (abs(z) + 1) * dz                           # d ln(mass)/dz <= |z| + 1 in the tails
-                rel = mass / math.ldexp(1.0, -k) - 1.0
+                rel = mass / tmass - 1.0
                 ok = abs(rel) <= tol
                 detail = 'sample(%s) = %r: Phi((x-mean)/sd) misses %s by %.3g relative (allowed %.3g)' % (
                     pt_name(pt), got, 'u' if pt['side'] == 'lo' else '1-u', rel, tol)
@@ -341,7 +382,7 @@ def check_tail(ctx, v, obj, cls, a, b, uni):
             if side == 'lo' and ('hi', k) in by_pt and math.isfinite(lo) and math.isfinite(by_pt[('hi', k)]):
                 hi = by_pt[('hi', k)]
                 ctx.verdict('tail_symmetric', abs(lo + hi - 2 * a) <= REL_G * max(abs(a), abs(lo), abs(hi)), cls=cls,
-                            vector=dict(vec, tail=dict(side='lo', k=k)),
+                            vector=dict(vec, tail=dict(side='lo', base=2, k=k)),
                             detail='sample(2^-%d) + sample(1-2^-%d) = %r expected %r' % (k, k, lo + hi, 2 * a))
 
 
@@ -533,22 +574,22 @@ def tail_event(obj, kind, a, b, pt1, pt2, eid):
     bad = not (abs(s1) < 450 and abs(s2) < 450)        # NaN / infinite / far outside anything the ladder can give here
     m1, m2 = (0, 0) if bad else (int(round(s1 * S)), int(round(s2 * S)))
     return dict(id=eid, op='tail', kind=kind, a=[a.numerator, a.denominator], b=[b.numerator, b.denominator],
-                s1=pt1['side'], k1=int(pt1['k']), s2=pt2['side'], k2=int(pt2['k']), S=S, m1=m1, m2=m2, tol=1, bad=bad,
+                s1=pt1['side'], b1=int(pt1['base']), k1=int(pt1['k']), s2=pt2['side'], b2=int(pt2['base']), k2=int(pt2['k']), S=S, m1=m1, m2=m2, tol=1, bad=bad,
                 gtol=int(math.ceil(float(b) * 0.5 / ZTS * S)) + 2, got=[s1, s2])
 
 
 def tail_events(rng, n, pts, first_id):
     """Pairs of real sample() calls at two points of the spec's tail ladder."""
     events = []
-    hi_ks = [int(p['k']) for p in pts if p['side'] == 'hi']
+    hi_ks = [int(p['k']) for p in pts if p['side'] == 'hi' and int(p['base']) == 2]
     while len(events) < n:
         kind = rng.choice(['Uniform', 'LogUniform', 'Gaussian', 'LogGaussian'])
         a, b, given = random_prior_args(rng, kind)
         obj = build_prior(kind, *given)
         for _ in range(6):
             pt1 = rng.choice(pts)
-            if rng.random() < 0.3 and int(pt1['k']) in hi_ks:
-                pt2 = dict(side='hi' if pt1['side'] == 'lo' else 'lo', k=pt1['k'])        # mirror pair
+            if rng.random() < 0.3 and int(pt1['base']) == 2 and int(pt1['k']) in hi_ks:
+                pt2 = dict(pt1, side='hi' if pt1['side'] == 'lo' else 'lo')        # mirror pair
             else:
                 pt2 = rng.choice(pts)
             events.append(tail_event(obj, kind, a, b, pt1, pt2, first_id + len(events)))
@@ -601,14 +642,14 @@ def deliver_events(rng, n, first_id):
 
 
 EVENT_KEYS = {'pair': ('id', 'op', 'kind', 'a', 'b', 'j1', 'j2', 'UD', 'S', 'tol', 'gtol'),
-              'tail': ('id', 'op', 'kind', 'a', 'b', 's1', 'k1', 's2', 'k2', 'S', 'tol', 'gtol'),
+              'tail': ('id', 'op', 'kind', 'a', 'b', 's1', 'b1', 'k1', 's2', 'b2', 'k2', 'S', 'tol', 'gtol'),
               'deliver': ('id', 'op', 'kind', 'a', 'b', 'pk', 'mode', 'j1', 'UD', 'S', 'tol', 'gtol')}
 
 
 def event_detail(e):
     if e['op'] == 'tail':
         return 'TLC rejected samples %r of %s(%s,%s) at u=%s,%s' % (
-            e['got'], e['kind'], e['a'], e['b'], pt_name(dict(side=e['s1'], k=e['k1'])), pt_name(dict(side=e['s2'], k=e['k2'])))
+            e['got'], e['kind'], e['a'], e['b'], pt_name(dict(side=e['s1'], base=e['b1'], k=e['k1'])), pt_name(dict(side=e['s2'], base=e['b2'], k=e['k2'])))
     if e['op'] == 'deliver':
         return 'TLC rejected the value %r received by the %s-mode parameter (%s) with %s(%s,%s) at u=%d/%d' % (
             e['got'], e['mode'], e['pk'], e['kind'], e['a'], e['b'], e['j1'], e['UD'])
@@ -677,8 +718,9 @@ def run(ctx):
                       vectors='exported calls x 3 name spellings x 3 text styles; uniform 1e-12, gaussian 1e-9 vs statistics.NormalDist',
                       traces='%d random dyadic priors/u pairs + %d tail-ladder pairs + %d update_model deliveries'
                              % ((4000, 800, 600) if q else (40000, 8000, 4000)),
-                      tail_ladder='u = 2^-k and 1 - 2^-k (k <= 53), k in TK of the cfg (%d points quick / %d thorough), down to 2^-1074'
-                                  % (17 + 10, 30 + 19),
+                      tail_ladder='u = 2^-k, 1 - 2^-k (k <= 53), 10^-k, 1 - 10^-k (k <= 12) for k in TK / TD of the cfg '
+                                  '(%d points quick / %d thorough) from 2^-1074 to 1 - 2^-53, joined to the grid at 1/16, 15/16'
+                                  % (17 + 10 + 11 + 5, 30 + 19 + 24 + 11),
                       delivery='6 constructor forms x 4 parameter kinds (declared linear/log, switched either way) x routes '
                                'set_prior / text (3 spellings) / input file / default, u = k/16')
     ctx.assumptions = ['the normal quantile is an uninterpreted strictly increasing odd table in the spec; its numerical '
@@ -693,6 +735,8 @@ def run(ctx):
                        'uniform kinds cannot be strictly monotone in doubles for tiny u (lo + u w rounds to lo): non-decreasing there',
                        'delivery is observed at the setters of a recording ForwardModel declared with @fitparam (harness/fx_priors.py)',
                        'TLC + CommunityModules Json/IOUtils']
+    verify_ladder_table(['MC_Priors_%s.cfg' % ctx.tier, 'MC_Priors_asgiven.cfg', 'EX_Priors.cfg' if q else 'EX_Priors_thorough.cfg',
+                         'Trace_Priors.cfg', 'MC_PriorDelivery_%s.cfg' % ctx.tier, 'MC_PriorDelivery_bymode.cfg'])
     zf = z_file()
     try:
         env = {'PRIORS_Z_FILE': zf}
@@ -702,9 +746,10 @@ def run(ctx):
         res = ctx.check_spec('export', 'MC_Priors', 'EX_Priors.cfg' if q else 'EX_Priors_thorough.cfg', env=env, workers=1)
         vecs = res.tagged('VEC')
         pts = vecs[0]['tpts'] if vecs else []
-        if not ({'lo', 'hi'} == {p['side'] for p in pts} and max(int(p['k']) for p in pts) >= 1074
-                and any(p['side'] == 'hi' and int(p['k']) == 53 for p in pts) and vecs[0]['zts'] == ZTS):
-            raise Machinery('the exported tail ladder does not reach 2^-1074 and 1 - 2^-53: %r' % (pts,))
+        us = [ladder_u(p)[0] for p in pts]
+        if not (pts and us[0] == 2.0 ** -1074 and us[-1] == 1.0 - 2.0 ** -53 and all(x < y for x, y in zip(us, us[1:]))
+                and {2, 10} == {int(p['base']) for p in pts} and vecs[0]['zts'] == ZTS):
+            raise Machinery('the exported tail ladder is not increasing from 2^-1074 to 1 - 2^-53 with decimal points: %r' % (pts,))
         if len(vecs) < 300:
             raise Machinery('only %d vectors exported' % len(vecs))
         rng = random.Random(ctx.seed * 31 + 8)
@@ -743,8 +788,8 @@ def replay(ctx, violations):
                 if op == 'deliver':
                     e = deliver_event(vec['kind'], a, b, (a, b), vec['pk'], vec['j1'], vec['id'])
                 elif op == 'tail':
-                    e = tail_event(build_prior(vec['kind'], a, b), vec['kind'], a, b, dict(side=vec['s1'], k=vec['k1']),
-                                   dict(side=vec['s2'], k=vec['k2']), vec['id'])
+                    e = tail_event(build_prior(vec['kind'], a, b), vec['kind'], a, b, dict(side=vec['s1'], base=vec['b1'], k=vec['k1']),
+                                   dict(side=vec['s2'], base=vec['b2'], k=vec['k2']), vec['id'])
                 else:
                     e = {k: vec[k] for k in EVENT_KEYS['pair']}
                     obj = build_prior(e['kind'], a, b)
